@@ -488,6 +488,8 @@ def time_sink(cfg, art, node, arg, cond, where, rep):
                 for x in art.I.atom_vals.get(a, ()):
                     if x is not None and any(c.endswith("OffsetDateTime::year") for c in calls_of(x)) and any(c.endswith("OffsetDateTime::to_offset") for c in calls_of(x)):
                         year_atoms[a] = core(x).r()
+        # named bounds (`UTC_TIME_FIRST_YEAR`) are evaluated before the integer semantics is applied
+        conc = {a: common.concretise(art.I, ("atom", a))[1] for a in year_atoms}
         if year_atoms and len(set(year_atoms.values())) == 1:
             var = next(iter(year_atoms.values()))
             others = [a for a in F.atoms(cond) if a not in year_atoms]
@@ -498,7 +500,7 @@ def time_sink(cfg, art, node, arg, cond, where, rep):
                 for y in list(range(1900, 2100)) + [-5, 0, 9999, 10000]:
                     asg = dict(base)
                     for a in year_atoms:
-                        asg[a] = F.int_semantics(("atom", a), var, y)
+                        asg[a] = F.int_semantics(("atom", conc[a]), var, y)
                     if None in asg.values():
                         ok_all = False
                         break
